@@ -118,4 +118,97 @@ theorem populate_history_independent (ft : FrameType) (recs : List Rec) (posmap 
     simp [hmap, hf.1, hsi]
   · rw [hp hne, hp' hne]
 
+/-! ## The position map -/
+
+/-- the frame records among the records of a file -/
+def framesIn : List (Rec ⊕ FrameA) → List FrameA
+  | [] => []
+  | .inl _ :: its => framesIn its
+  | .inr f :: its => f :: framesIn its
+
+/-- the references computed for frame type `k` are, in file order, one per frame record of the type that has data,
+carrying its frame number and the values of its first channel -/
+theorem refsOf_spec (k : Nat) : ∀ (items : List (Rec ⊕ FrameA)) (pos : Nat),
+    (refsOf k pos items).map (fun r => r.frameNo) = frameNosOf k (framesIn items) ∧
+    (refsOf k pos items).map (fun r => r.x) = (rowsOf k (framesIn items)).map (fun row => row.headD []) ∧
+    (refsOf k pos items).length = (rowsOf k (framesIn items)).length ∧
+    (refsOf k pos items).Pairwise (fun a b => a.pos < b.pos) ∧ (∀ r ∈ refsOf k pos items, pos ≤ r.pos)
+  | [], pos => by simp [refsOf, framesIn, frameNosOf, rowsOf]
+  | .inl _ :: its, pos => by
+    obtain ⟨h1, h2, h3, h4, h5⟩ := refsOf_spec k its (pos + 1)
+    refine ⟨by simpa [refsOf, framesIn] using h1, by simpa [refsOf, framesIn] using h2,
+      by simpa [refsOf, framesIn] using h3, by simpa [refsOf] using h4, ?_⟩
+    intro r hr; have := h5 r (by simpa [refsOf] using hr); omega
+  | .inr f :: its, pos => by
+    obtain ⟨h1, h2, h3, h4, h5⟩ := refsOf_spec k its (pos + 1)
+    cases hv : f.vals with
+    | none =>
+      refine ⟨by simpa [refsOf, framesIn, frameNosOf, hv] using h1, by simpa [refsOf, framesIn, rowsOf, hv] using h2,
+        by simpa [refsOf, framesIn, rowsOf, hv] using h3, by simpa [refsOf, hv] using h4, ?_⟩
+      intro r hr; have := h5 r (by simpa [refsOf, hv] using hr); omega
+    | some vs =>
+      by_cases hk : f.ft = k
+      · refine ⟨by simp [refsOf, framesIn, frameNosOf, hv, hk, h1], by simp [refsOf, framesIn, rowsOf, hv, hk, h2],
+          by simp [refsOf, framesIn, rowsOf, hv, hk, h3], ?_, ?_⟩
+        · simp only [refsOf, hv, hk, if_true, List.pairwise_cons]
+          exact ⟨fun r hr => by have := h5 r hr; simp; omega, h4⟩
+        · intro r hr
+          simp only [refsOf, hv, hk, if_true, List.mem_cons] at hr
+          rcases hr with rfl | hr
+          · simp
+          · have := h5 r hr; omega
+      · refine ⟨by simpa [refsOf, framesIn, frameNosOf, hv, hk] using h1, by simpa [refsOf, framesIn, rowsOf, hv, hk] using h2,
+          by simpa [refsOf, framesIn, rowsOf, hv, hk] using h3, by simpa [refsOf, hv, hk] using h4, ?_⟩
+        intro r hr; have := h5 r (by simpa [refsOf, hv, hk] using hr); omega
+
+/-- **X and frame number.**  For any file whose records are frame records of a well-formed log pass (any interleaving
+of frame types, frame records without data, any frame numbers) mixed with arbitrary records the IFLR index skips
+(encrypted records, EFLRs), indexing succeeds and the position map holds for every frame type, in file order,
+exactly one entry per frame record of that type with data: its position, its recorded frame number and the values of
+its first channel. -/
+theorem x_and_frameno (lp : List FrameType) (hlp : lpOk lp) (items : List (Rec ⊕ FrameA))
+    (hskip : ∀ r, .inl r ∈ items → (r.encrypted || r.isEflr) = true) (hfr : ∀ f, .inr f ∈ items → frameOk lp f) :
+    ∃ m, indexIflrs lp 0 (items.map (toRec lp)) [] = .ok m ∧
+      ∀ k ft, lp[k]? = some ft →
+        (m.lookup ft.name).getD [] = refsOf k 0 items ∧
+        ((m.lookup ft.name).getD []).map (fun r => r.frameNo) = frameNosOf k (framesIn items) ∧
+        ((m.lookup ft.name).getD []).map (fun r => r.x) = (rowsOf k (framesIn items)).map (fun row => row.headD []) := by
+  obtain ⟨m, h1, h2⟩ := index_spec lp hlp items 0 [] hskip hfr
+  refine ⟨m, h1, ?_⟩
+  intro k ft hk
+  have := h2 k ft hk
+  simp only [List.lookup, Option.getD_none, List.nil_append] at this
+  obtain ⟨s1, s2, _, _, _⟩ := refsOf_spec k items 0
+  exact ⟨this, by rw [this]; exact s1, by rw [this]; exact s2⟩
+
+/-- **Frame count.**  The number of frames the index holds for a frame type (what `populate` without a selector
+returns, see `populate_all_values`) is the number of frame records of that type that carry data. -/
+theorem frame_count (lp : List FrameType) (hlp : lpOk lp) (items : List (Rec ⊕ FrameA))
+    (hskip : ∀ r, .inl r ∈ items → (r.encrypted || r.isEflr) = true) (hfr : ∀ f, .inr f ∈ items → frameOk lp f) :
+    ∃ m, indexIflrs lp 0 (items.map (toRec lp)) [] = .ok m ∧
+      ∀ k ft, lp[k]? = some ft → ((m.lookup ft.name).getD []).length = (rowsOf k (framesIn items)).length := by
+  obtain ⟨m, h1, h2⟩ := x_and_frameno lp hlp items hskip hfr
+  refine ⟨m, h1, ?_⟩
+  intro k ft hk
+  rw [(h2 k ft hk).1]
+  exact (refsOf_spec k items 0).2.2.1
+
+/-! non-vacuity: two interleaved frame types, a 2×2 channel, a data-less frame record and an encrypted record -/
+def exLp : List FrameType :=
+  [⟨⟨1, 0, [70, 48]⟩, [⟨[88], 2, [1]⟩, ⟨[65], 13, [2, 2]⟩]⟩, ⟨⟨1, 0, [70, 49]⟩, [⟨[89], 17, [1]⟩]⟩]
+def exItems : List (Rec ⊕ FrameA) :=
+  [.inr ⟨0, 1, some [[.word 2 1065353216], [.int 1, .int (-2), .int 3, .int 4]]⟩, .inl ⟨true, false, 0, [1, 2]⟩,
+   .inr ⟨1, 1, some [[.int 7]]⟩, .inr ⟨0, 2, none⟩,
+   .inr ⟨0, 2, some [[.word 2 1073741824], [.int 5, .int 6, .int 7, .int 8]]⟩]
+
+example : lpOk exLp := by
+  simp [lpOk, exLp, chanOk, TD.C03.obnameOk, numericCode]
+example : ∀ r, .inl r ∈ exItems → (r.encrypted || r.isEflr) = true := by
+  intro r hr; simp [exItems] at hr; subst hr; rfl
+example : rowsOf 0 (framesIn exItems) = [[[.word 2 1065353216], [.int 1, .int (-2), .int 3, .int 4]],
+    [[.word 2 1073741824], [.int 5, .int 6, .int 7, .int 8]]] := by decide
+example : (indexIflrs exLp 0 (exItems.map (toRec exLp)) []).toOption.map (fun m => m.map (fun e => e.2.map (fun r => (r.pos, r.frameNo)))) =
+    some [[(0, 1), (4, 2)], [(2, 1)]] := by rfl
+example : selOk (some (.slice (some 1) none (some 2))) := by simp [selOk]
+
 end TD.C04
